@@ -595,6 +595,122 @@ def v_level(led, rid, ctx):
     led.floor(rid, "API transitions", len(trans), 30)
 
 
+def v9(led, rid, ctx):
+    """EVENT-FLIP TABLE: a view with a negative scale exchanges lower- and upper-bound events when it
+    registers a propagator with its inner variable, and only those: for every subset S of
+    {LowerBound, UpperBound, Assign, Removal} and both signs of the scale, the set handed to the inner
+    watch_all / watch_all_backtrack is S with LowerBound and UpperBound exchanged (negative) or S
+    itself (non-negative).  The path summaries are evaluated over Python sets; nothing is run."""
+    import itertools
+    from ..symexec import SymExec
+    lib = ctx.lib
+    EV = ("LowerBound", "UpperBound", "Assign", "Removal")
+
+    class Undec(Exception):
+        pass
+
+    def ev(e, S, neg):
+        e = peel(e, calls=None)
+        if e.k == "arg" and e.a == 3:
+            return frozenset(S)
+        if e.k == "agg" and (e.a or "").endswith("IntDomainEvent"):
+            return frozenset([e.b])
+        if e.k == "const" and e.a is not None:
+            return e.a
+        if e.k == "call":
+            n_ = e.a.name
+            a = [ev(x, S, neg) for x in e.b]
+            if n_ == "bitor":
+                return frozenset(a[0]) | frozenset(a[1])
+            if n_ == "intersection" or n_ == "bitand":
+                return frozenset(a[0]) & frozenset(a[1])
+            if n_ in ("union",):
+                return frozenset(a[0]) | frozenset(a[1])
+            if n_ in ("symmetrical_difference", "bitxor"):
+                return frozenset(a[0]) ^ frozenset(a[1])
+            if n_ in ("difference", "sub"):
+                return frozenset(a[0]) - frozenset(a[1])
+            if n_ == "complement":
+                return frozenset(EV) - frozenset(a[0])
+            if n_ == "len":
+                return len(a[0])
+            if n_ == "is_empty":
+                return int(len(a[0]) == 0)
+            if n_ == "contains":
+                return int(next(iter(a[1])) in a[0]) if isinstance(a[1], frozenset) and len(a[1]) == 1 else int(a[1] <= a[0])
+            if n_ == "is_negative":
+                return int(neg)
+            if n_ == "is_positive":
+                return int(not neg)
+            if n_ in ("clone", "into", "from"):
+                return a[0]
+            raise Undec(n_)
+        if e.k == "binop":
+            x, y = ev(e.b, S, neg), ev(e.c, S, neg)
+            op = e.a
+            if op == "Eq":
+                return int(x == y)
+            if op == "Ne":
+                return int(x != y)
+            if op in ("Lt", "Le", "Gt", "Ge"):
+                return int({"Lt": x < y, "Le": x <= y, "Gt": x > y, "Ge": x >= y}[op])
+            if op in ("BitAnd",):
+                return int(bool(x) and bool(y))
+            if op in ("BitOr",):
+                return int(bool(x) or bool(y))
+            raise Undec(op)
+        if e.k == "unop" and e.a == "Not":
+            return int(not ev(e.b, S, neg))
+        if e.k == "proj" and "scale" in e.fields():
+            return -1 if neg else 1
+        raise Undec(show(e)[:60])
+
+    n = 0
+    for f in lib.fns.values():
+        if f.name not in ("watch_all", "watch_all_backtrack") or "affine_view" not in f.file:
+            continue
+        paths = [p for p in SymExec(f, max_paths=200).run() if not p.diverged]
+        bad = None
+        rows = 0
+        try:
+            for k in range(len(EV) + 1):
+                for S in itertools.combinations(EV, k):
+                    for neg in (False, True):
+                        got = None
+                        for p in paths:
+                            ok = True
+                            for cond, val, others in p.conds:
+                                if cond.k == "discr":
+                                    raise Undec("discriminant")
+                                w = ev(cond, S, neg)
+                                if (val is not None and w != val) or (val is None and others and w in others):
+                                    ok = False
+                                    break
+                            if not ok:
+                                continue
+                            inner = [(c, a) for c, a, r in p.calls if c.name == f.name]
+                            if len(inner) != 1:
+                                raise Undec("%d forwarding calls" % len(inner))
+                            got = ev(inner[0][1][-1], S, neg)
+                            break
+                        if got is None:
+                            raise Undec("no path for %s" % (S,))
+                        rows += 1
+                        swap = {"LowerBound": "UpperBound", "UpperBound": "LowerBound"}
+                        want = frozenset(swap.get(x, x) for x in S) if neg else frozenset(S)
+                        if got != want and bad is None:
+                            bad = ("registers %s with the inner variable for the events %s on a view with a %s scale "
+                                   "(expected %s)" % (sorted(got), sorted(S), "negative" if neg else "non-negative", sorted(want)))
+        except Undec as u:
+            bad = "uses %s, which this rule cannot evaluate" % u
+        n += 1
+        led.check(bad is None, rid, "AffineView::%s:event-flip" % f.name, f.span, "%d (event set, sign) rows" % rows,
+                  "AffineView::%s %s: a propagator that asked for bound events of the view is not told about the "
+                  "corresponding change of the inner variable (for watch_all_backtrack: not told when it is undone), "
+                  "and incremental propagators keep stale state" % (f.name, bad))
+    led.floor(rid, "event registrations of AffineView", n, 2)
+
+
 def run(ctx, led):
     run_rule(led, "V1", "affine view bound functions: sign of scale → inner operation and rounding "
              "(8 functions × 2 signs) against the oracle of y = a·x + b, incl. value/result wiring", v1, ctx)
@@ -614,6 +730,7 @@ def run(ctx, led):
     from . import C09 as _C09
     run_rule(led, "V5", "a reified propagator forgets its cached inconsistency on every synchronise, so a conflict of an abandoned branch cannot fix the reification literal at the root (shared with C09-R3)", _C09.r3, ctx)
     from . import fznrules as _fz
+    run_rule(led, "V9", "EVENT-FLIP TABLE: a negative-scale view exchanges exactly LowerBound and UpperBound when registering (watch_all, watch_all_backtrack)", v9, ctx)
     run_rule(led, "V6", "ZIP-ALIGNMENT: weights and variables are paired position by position (shared with C13-F11)", _fz.zip_alignment, ctx)
     from . import kernel as _kernel2
     _kernel2.run_lifecycle(led, ctx, "V")
